@@ -16,7 +16,7 @@ var propC05 = &pProp{
 	level:  "exploration",
 	rule:   "one evaluation = one simulated Parse call of a real generated parser that contains state blocks, under a simulated sync.Pool (recycle most-recent / oldest / random item, drop on Put, New despite pooled items, a foreign user that takes a pooled map, scribbles on it and later clears and returns it), with code predicates whose truth is drawn by the simulator (backtrack points after every state change), state blocks that set/delete keys and mutate Cloner values in place, and action/predicate blocks that misbehave by writing to the store; at every code-block event the store the block sees must equal the store of the executable reference model (functional store threaded through PEG evaluation) and the kernel's counter in globalStore must equal the number of blocks run so far; distinct_nontrivial = distinct (grammar, input, options) cases in which the store changed between two events of a compared run",
 	assume: []string{"the reference model defines 'the store as it was' from doc.go: failure, & and ! return the incoming store; action and predicate writes are dropped; state-block operations persist in order; Cloner values are values", "a disagreement between model and parser about matching (different block, different action offset/text) is counted as unclaimed_divergence and decides nothing; it must be 0 on the unchanged tree", "Memoize is on in a quarter of the cases of parsers without left recursion: a memo hit replays position and value and runs no block, so it leaves the store alone (model and parser agree on that; whether memoisation *should* ignore the store is not C05's subject); left recursion only in directly left-recursive rules, whose seed growing the model implements"},
-	bias:   specBias{nullableLoops: 0, leftRec: 15, states: 100, preds: 75, actions: 85, throws: 35, optimized: 40, display: 5, unicode: 30, stateBias: true, lrDirect: true, topLoop: 6},
+	bias:   specBias{nullableLoops: 18, leftRec: 15, states: 100, preds: 75, actions: 85, throws: 35, optimized: 40, display: 5, unicode: 30, stateBias: true, lrDirect: true, topLoop: 6},
 	tier: func(tier string) pParams {
 		if tier == "thorough" {
 			return pParams{batches: 8, grammars: 500, inputs: 10, optSets: 3, extra: 6}
